@@ -57,6 +57,31 @@ func (e *evalCtx) bind(name string, v sval) *evalCtx {
 }
 
 // evalBool parses and evaluates a boolean spec line; errors are reported once.
+// evalTerm: like evalBool for an expression of any sort.
+func (t *fnTrans) evalTerm(e *evalCtx, sl specLine) (term string, ok bool) {
+	defer func() {
+		if r := recover(); r != nil {
+			se, isSpec := r.(specErr)
+			msg := fmt.Sprint(r)
+			if isSpec {
+				msg = se.msg
+			}
+			save := t.cur.reach
+			o := t.oblige("contract", fmt.Sprintf("%s:%d", sl.file, sl.line), token.NoPos, "false", "contract clause cannot be evaluated on this code: "+msg+" ["+sl.text+"]")
+			o.Trivial = false
+			o.Reach = "true"
+			t.cur.reach = save
+			term, ok = "0", false
+		}
+	}()
+	x, err := parseSpec(sl.text)
+	if err != nil {
+		panic(specErr{err.Error()})
+	}
+	v := e.eval(x)
+	return v.term, true
+}
+
 func (t *fnTrans) evalBool(e *evalCtx, sl specLine) (term string, ok bool) {
 	defer func() {
 		if r := recover(); r != nil {
